@@ -132,7 +132,7 @@ class BX:
             'sigma=2,L=2,pal=abc,stretch=1100,pd=min,nf=1,maxn=3',
             'sigma=2,L=2,pal=abc+sgn,stretch=1,pd=quick,nf=1,maxn=3,pre=125+126+127+128+129',
             'sigma=2,L=4,pal=abc,stretch=1,pd=min,nf=1,maxn=3',
-            'sigma=2,L=2,pal=abc,stretch=1,pd=min,nf=1,maxn=2,pre=16382+16383+16384',
+            'sigma=2,L=2,pal=abc,stretch=1,pd=min,nf=1,maxn=2,pre=16382+16383+16384,kinds=PFC+RPFC+HTFC+HHTFC+RPHTFC+RPDAC+HASHHF+HASHRPF+HASHUFFDAC+HASHRPDAC+HASHRPDACBlocks+FMINDEX',   # (XBW needs minutes per query on 16 KiB strings)
             'sigma=2,L=5,pal=abc+ext+sgn,stretch=1,pd=quick,nf=1,ramp=both',
             'sigma=3,L=3,pal=abc+ext,stretch=1,pd=quick,nf=1,ramp=both',
             'sigma=4,L=3,exact=1,pal=abc+spr,stretch=1,pd=quick,nf=1,ramp=lex',
